@@ -10,26 +10,26 @@ LEVEL_TEXT = ('Bounded symbolic model checking: the harness drives the real txto
 
 # property -> (design section, note)  -- only properties with a harness module are claimed
 NOTES = {
- 'C01': ('DESIGN.md 3/C01', 'real protocol + FSM, list transport; Tor-side reply model (vlib/ref_control.py); schedules: symbolic submission points/flags over 8 reply shapes, 2 (quick) / 3 (thorough) commands + depth-4 tuples; text: symbolic fragments <=3 chars and all 2xx/5xx codes; segmentation: 2-3 cut offsets concretised exhaustively then delivered through the real dataReceived'),
- 'C02': ('DESIGN.md 3/C02', 'real protocol; events of 3 wire forms x subscribed/unsubscribed names before the in-flight reply / when idle; 3 listeners with symbolic behaviours incl. unsubscribing during delivery; SETEVENTS answered by the harness, acknowledgements may lag (5 quick / 6 thorough subscribe-unsubscribe-event operations)'),
- 'C03': ('DESIGN.md 3/C03', 'real protocol, list transport; 8 pre-loss states built by a real session prefix, symbolic partial line / reason / post-loss commands / notification requests'),
+ 'C01': ('DESIGN.md 3/C01', 'real protocol + FSM, list transport; Tor-side reply model (vlib/ref_control.py); schedules: symbolic submission points/flags over 8 reply shapes, 2 (quick) / 3 (thorough) commands + depth-4 tuples; text: symbolic fragments <=3 chars and all 2xx/5xx codes; segmentation: 2-3 cut offsets concretised exhaustively then delivered through the real dataReceived; per-line callbacks that return values'),
+ 'C02': ('DESIGN.md 3/C02', 'real protocol; events of 5 wire forms (exact payload, the end line included) x subscribed/unsubscribed names before the in-flight reply / when idle; 3 listeners with symbolic behaviours incl. unsubscribing during delivery; SETEVENTS answered by the harness, acknowledgements may lag (5 quick / 6 thorough subscribe-unsubscribe-event operations)'),
+ 'C03': ('DESIGN.md 3/C03', 'real protocol, list transport; 12 pre-loss states built by a real session prefix (incl. AUTHENTICATE / QUIT outstanding, identical command texts, callers that attach callbacks only after the loss), symbolic partial line / reason / post-loss commands / notification requests'),
  'C04': ('DESIGN.md 3/C04', 'real protocol from makeConnection on; open()/os.urandom stubbed; Tor played by a reference script answering what was actually written; method mask/order, cookie condition/length, provider kind, one server fault per run; COOKIEFILE escapes; unescape round-trip over a critical alphabet'),
- 'C05': ('DESIGN.md 3/C05', 'struct shim; list transport; reply header fields / cut point / disconnect point symbolic; oracle = independent RFC 1928 reply-stream parser; exception escaping dataReceived is followed by connectionLost as in Twisted'),
- 'C06': ('DESIGN.md 3/C06', 'struct replaced by a validated pure-Python shim; symbolic hostnames start with g and use contract stubs for ipaddress/inet_pton; oracle = independent RFC 1928 request decoder; IPv6 CONNECT truncation is a listed known finding'),
- 'C07': ('DESIGN.md 3/C07', 'real TorState(bootstrap=False); histories = bounded symbolic event choices admitted by the Tor-side reference model (vlib/ref_tor.py), after the empty state and after 5 snapshots installed through _circuit_status/_stream_status; monitors after every event'),
- 'C08': ('DESIGN.md 3/C08', 'C07 objects plus recording listener doubles; listener add/remove positions, wait requests and the position of the close acknowledgement relative to the CLOSED event are symbolic choices'),
- 'C09': ('DESIGN.md 3/C09', 'real TorState/attacher plumbing; harness acknowledges SETCONF/ATTACHSTREAM; attacher answer kind / delivery mode / stream kind symbolic; via-circuit: every causally possible order of 8 events for two concurrent TorCircuitEndpoint.connect calls and an unrelated stream, SOCKS leg faked'),
- 'C10': ('DESIGN.md 3/C10', 'real TorConfig bootstrapped against SimTor; 4 (quick) / 5 (thorough) operations from assign / in-place list ops / accepted and rejected saves per option kind; SETCONF decoded by the reference kvline grammar and applied to the SimTor store; emptied-list clearing is a listed known finding'),
- 'C11': ('DESIGN.md 3/C11', 'real TorConfig bootstrapped against SimTor (vlib/simtor.py) through the real protocol; one option per declared type in states unset/one/two values with symbolic values; CONF_CHANGED / local edit / save sequences'),
+ 'C05': ('DESIGN.md 3/C05', 'struct shim; list transport; reply header fields / cut point / disconnect point symbolic; oracle = independent RFC 1928 reply-stream parser; exception escaping dataReceived is followed by connectionLost as in Twisted; error class per RFC 1928 code; late observers; up to 70000 coalesced application bytes'),
+ 'C06': ('DESIGN.md 3/C06', 'struct replaced by a validated pure-Python shim; symbolic hostnames start with g and use contract stubs for ipaddress/inet_pton; oracle = independent RFC 1928 request decoder; IPv6 CONNECT truncation is a listed known finding; public entry points (resolve, resolve_ptr, TorSocksEndpoint) with str and bytes targets'),
+ 'C07': ('DESIGN.md 3/C07', 'real TorState(bootstrap=False); histories = bounded symbolic event choices admitted by the Tor-side reference model (vlib/ref_tor.py), after the empty state and after 5 snapshots installed through _circuit_status/_stream_status (34-event alphabet incl. EXTENDED on a BUILT circuit, keyword sets that change between events); monitors after every event'),
+ 'C08': ('DESIGN.md 3/C08', 'C07 objects plus recording listener doubles; listener add/remove positions, wait requests and the position of the close acknowledgement relative to the CLOSED event are symbolic choices; a listener attached from inside the *_new notification; close with and without Tor's flag'),
+ 'C09': ('DESIGN.md 3/C09', 'real TorState/attacher plumbing; harness acknowledges SETCONF/ATTACHSTREAM; attacher answer kind / delivery mode / stream kind symbolic; via-circuit: every causally possible order of 8 events for two concurrent TorCircuitEndpoint.connect calls and an unrelated stream, SOCKS leg faked; circuit closing / SOCKS leg failing with the local port re-used; PriorityAttacher; NEWRESOLVE streams'),
+ 'C10': ('DESIGN.md 3/C10', 'real TorConfig bootstrapped against SimTor; 4 (quick) / 5 (thorough) operations from assign / in-place list ops / accepted and rejected saves per option kind; SETCONF decoded by the reference kvline grammar and applied to the SimTor store; emptied-list clearing is a listed known finding; one option of each of 16 type names; announcements from another controller'),
+ 'C11': ('DESIGN.md 3/C11', 'real TorConfig bootstrapped against SimTor (vlib/simtor.py) through the real protocol; one option per declared type in states unset/one/two values with symbolic values; CONF_CHANGED (one or two options, resets) / local edit / list assignment / save sequences; an event at every point of the bootstrap'),
  'C12': ('DESIGN.md 3/C12', 'list-recording transport double; oracle = reference decoder of tor kvline grammar; values <=3 (quick) / <=4 (thorough) chars over printable ASCII+TAB/CR/LF, 1-3 pairs incl. repeated keys'),
  'C13': ('DESIGN.md 3/C13', 'reply rendered by a reference encoder (control-spec) and delivered as whole lines through the real lineReceived (get_info, get_info_single, get_conf, get_conf_single); values <=3/4 chars printable ASCII; two known findings carved out and re-checked by witnesses'),
  'C14': ('DESIGN.md 3/C14', 'Ephemeral(Authenticated)OnionService.create on a TorConfig bootstrapped against SimTor; option product chosen by the solver per (version, key kind, clients) partition; ADD_ONION decoded by an independent control-spec 3.27 parser; key custody and DEL_ONION checked on the service object; bare client names of 1/2/3-5 characters'),
  'C15': ('DESIGN.md 3/C15', 'EphemeralOnionService.create on a TorConfig bootstrapped against SimTor; HS_DESC event sequences (3 mixed + 5 own quick / 4 mixed + 6 own thorough) x own/foreign service x directories, ephemeral and filesystem service, reply position and waiting mode symbolic; three-valued attempt-level reference; foreign-UPLOADED completion is a listed known finding'),
  'C16': ('DESIGN.md 3/C16', 'documents built from a relay table by a reference builder; first via the real get_info_incremental(ns/all) reply path, later ones as real 650+NEWCONSENSUS events; one relay fully varied per document (presence, nickname, flags, a/w/p lines, bandwidth), a second sharing its nickname; identity codecs on 20-byte ids with one symbolic byte'),
- 'C17': ('DESIGN.md 3/C17', 'TCPHiddenServiceEndpoint on a recording MemoryReactorClock, real onion-service creation against SimTor; a failure injected at each of 6 steps of listen() (ephemeral services), caller local_port, retry after failure, a second service publishing during the wait; constructor option table; filesystem-service listen() outside'),
+ 'C17': ('DESIGN.md 3/C17', 'TCPHiddenServiceEndpoint on a recording MemoryReactorClock, real onion-service creation against SimTor; a failure injected at each of 6 steps of listen() (ephemeral services), caller local_port, retry after failure, a second service publishing during the wait; constructor option table; the same combinations through the onion: parser / system_tor / global_tor / private_tor; basic authentication; filesystem-service listen() outside'),
  'C18': ('DESIGN.md 3/C18', '_create_socks_endpoint, TorConfig.create_socks_endpoint and TorConfig.socks_endpoint against SimTor through the real protocol; existing configuration (0..2 entries of 5 forms) x request (7 kinds) chosen by the solver; SETCONF decoded by the reference kvline grammar; fallback ports with a connect-outcome double'),
- 'C19': ('DESIGN.md 3/C19', 'real TorProcessProtocol with doubles for process transport, clock, control connection and control protocol; every causally possible sequence (5 from start / 4 after bootstrap quick; 6/5 thorough) of 13 event kinds, selected by a solver-chosen index; real launch() with reactor / file-system doubles for the temp-dir clause'),
- 'C20': ('DESIGN.md 3/C20', 'datetime replaced by an int-backed shim validated against timedelta; integer-time task.Clock; TZ=UTC; <=3 steps, 2 names, offsets -10s..3d'),
+ 'C19': ('DESIGN.md 3/C19', 'real TorProcessProtocol with doubles for process transport, clock, control connection and control protocol; every causally possible sequence (5 from start / 4 after bootstrap quick; 6/5 thorough) of 13 event kinds, selected by a solver-chosen index; real launch() with reactor / file-system doubles for the temp-dir clause; one control-protocol double per connection (reconnect after a rejected ownership command)'),
+ 'C20': ('DESIGN.md 3/C20', 'datetime replaced by an int-backed shim validated against timedelta; integer-time task.Clock; TZ=UTC; <=3 steps, 2 names, offsets -10s..3d; also through a real TorState (bootstrap listing + ADDRMAP events) and with two lines in one reactor turn'),
 }
 PENDING_REASON = 'check not built yet (work in progress this round); no claim is made'
 
